@@ -20,6 +20,19 @@ Dynamic side (this module):
     batches round-robin; ctx strength and the wrapped transform's parameters are recorded per global sample.  With
     "loader" a real torch DataLoader with that many worker processes produces the same record.  The announced length
     (epochs / updates / samples) is also counted with torch's own DistributedSampler / BatchSampler.
+  * inter cases: INTERLEAVED HISTORIES ON SHARED OBJECTS.  1-3 KDScheduledTransforms (different schedules / batch sizes /
+    announced lengths) over a heap of 1-2 augmentation objects, some shared (self.transform = a heap object or a private
+    KDComposeTransform over heap objects), optionally all inside an outer KDComposeTransform that also holds heap objects
+    directly; the whole pipeline is deep-copied once per simulated worker.  Per step either "scheduled k processes its
+    next sample" (dealt to the copies in full batches round-robin) or "somebody calls scale_strength(f) on heap object j
+    of copy w" or "somebody calls scale_strength(f) on copy w's outer composition".  After EVERY step the parameters of
+    every heap object of that copy are read back from the real objects; for a call: the reported ctx value must be the
+    schedule's value at that scheduled transform's own global batch, every object it reaches must have the parameters
+    of the constructed object scaled by exactly that value (APPLIED = REPORTED), and what the augmentation records in
+    ctx / returns must equal what the constructed augmentation scaled by that value records / returns (same generator
+    seed, same input); every other object must still be `constructed, scaled by the last factor it was given`.
+    Model: Sched.v second part (heap + scheduled states per copy), spec: Spec.v ispec_run, theorem
+    scheduled_applies_schedule_value_after_any_interleaving.
   * multi_iter cases: a real DataLoader iterated once per epoch (persistent workers or not): inside the claim only for
     persistent workers with num_workers | batches per epoch; the other two regimes are a recorded finding.
   * translator_selftest: synthetic _scale_strength bodies with unsupported shapes must be refused by the translator.
@@ -34,7 +47,7 @@ from .common import Raw, coq
 
 ID = "C15"
 COQ_FILES = ["C15/Base.v", "C15/gen/Strength.v", "C15/Sched.v", "C15/Spec.v", "C15/Check.v", "C15/BaseLemmas.v",
-             "C15/Proofs.v", "C15/PropertyC15.v"]
+             "C15/Proofs.v", "C15/ProofsInterleave.v", "C15/PropertyC15.v"]
 COQ_PRELUDE = ("From Coq Require Import ZArith QArith List Bool.\nImport ListNotations.\n"
                "From KD Require Import C15.Base C15.gen.Strength C15.Sched C15.Spec C15.Check.\nOpen Scope Q_scope.\n")
 COQ_CHECK = "check"
@@ -51,6 +64,12 @@ TRUSTED = [
     "coq/C15/Sched.v: hand model of KDScheduledTransform._worker_init_fn / __call__ (the schedule object is an opaque "
     "function; its values are asked from an independent copy of the schedule); tied to the code by the simulated "
     "workers and (thorough tier, 2 cases in quick) a real multi-process DataLoader",
+    "coq/C15/Sched.v second part (shared objects): hand model of object identity - one pipeline copy = a heap of "
+    "augmentation objects + the scheduled transforms' fields, KDScheduledTransform.__call__ = unconditional write of "
+    "schedule(batch) to every heap cell self.transform.scale_strength reaches, then apply; KDScheduledTransform as a "
+    "member of an outer composition receives nothing from the outer factor (base-class no-op _scale_strength); "
+    "copy.deepcopy of the pipeline (what a DataLoader worker gets) preserves the sharing inside a copy and shares "
+    "nothing between copies; tied to the code by reading every heap object of the touched copy back after every step",
     "round-robin assignment of batches to DataLoader workers (torch behaviour, observed in the real-loader cases: the "
     "worker id of every batch is recorded and the strengths are compared with the schedule at the global batch)",
     "torchvision ColorJitter / GaussianBlur / RandomRotation argument normalisation produces lower bounds >= 0 and "
@@ -75,7 +94,16 @@ ASSUMPTIONS = [
     "compositions are trees of the containers KDComposeTransform (and its subclasses), KDTransformChoice, KDRandomApply, "
     "PatchwiseTransform over scaling leaves, non-scaling KDTransforms and foreign callables (model = the code with "
     "fixes/C15_{random_apply,transform_choice,patchwise,three_augment}_scale.patch applied); KDScheduledTransform does "
-    "not forward an OUTER scale_strength to the transform it schedules (its own schedule governs) and counts as Opaque",
+    "not forward an OUTER scale_strength to the transform it schedules and counts as Opaque in scale cases; in the "
+    "inter cases this is modelled (Sched.v member MSched) and observed on the real code: outer.scale_strength(f) leaves "
+    "the scheduled augmentation where the last schedule value put it and the next sample gets the schedule's value - "
+    "the schedule wins, also against factor 0 (supports_scale_strength() is False for KDScheduledTransform); within "
+    "`depends only on the last factor given`: the scheduled member does not depend on the outer factor at all",
+    "interleaved histories: every scheduled transform's OWN samples arrive in full batches dealt round-robin to the "
+    "pipeline copies (its sample_counter counts only its own calls); how the calls of different scheduled transforms "
+    "and foreign scale_strength calls interleave is arbitrary.  An outer composition's factor does not reach the "
+    "augmentation behind a scheduled member (the schedule wins at the next sample; observed on the real code, modelled "
+    "as MSched -> no targets): a change of that behaviour shows up as model drift, not as a violation",
     "MagnitudeSampler with magnitude_std = inf (uniform mode): magnitude_std is never read by sampling; its value "
     "(inf, or nan after factor 0) is not part of the claim and is shipped as 0",
     "KDGaussianBlur* have no identity setting: the weakest setting is the constant sigma = sigma_lb",
@@ -105,7 +133,13 @@ RULE = ("scale: every scaling class x 3 constructor-argument sets as a leaf (spy
         "epochs (1-5 epochs, world size 1-4, drop_last on/off, per-rank length with any remainder mod B, dataset length "
         "with any remainder mod world size), custom / linear / cosine schedules, wrapped leaf or tree, optionally nested "
         "in a compose, 1..n_batches*B samples dealt round-robin; real DataLoader worker processes for 2 (quick) / 16 "
-        "cases and for the multi-iterator cases; non-trivial = at least one scaling leaf and one factor strictly between "
+        "cases and for the multi-iterator cases; inter: 90 / 600 interleaved histories of 6-24 (40) steps over 1-3 "
+        "scheduled transforms x 1-2 heap objects (shared in most cases; private compose over two objects; outer "
+        "composition in 40%), W in 1..3 pipeline copies, batch sizes 1-5 (mostly >= 2, per scheduled transform), "
+        "schedules with plateaus / constants / increasing / decreasing, 72% calls, foreign scale_strength aimed at the "
+        "copy that handles some scheduled transform's next sample, outer scale; non-trivial = the history contains a "
+        "call with the same schedule value as that scheduled transform's previous call on the copy while somebody "
+        "else gave one of its objects a different factor in between; non-trivial = at least one scaling leaf and one factor strictly between "
         "0 and 1 (scale) / at least two workers or two batches (sched); distinct by (tree signature, factor pattern) / "
         "(W, B, announced length, wrapped)")
 
@@ -329,6 +363,95 @@ def sched_case(rng, big=False, loader=0, mode=None):
             "wrap": rng.random() < 0.3, "n": n, "loader": bool(loader), "xseed": rng.randrange(10 ** 6)}
 
 
+def _rand_init(rng, B, nb_target, big=False):
+    """a way of announcing a training length of about nb_target batches of B samples"""
+    mode = rng.choice(["updates", "updates", "samples", "epochs"])
+    if mode == "updates":
+        return {"updates": nb_target}
+    if mode == "samples":
+        return {"samples": max(1, nb_target * B - rng.choice([0, 0, 1, B - 1, rng.randrange(B)]))}
+    world = rng.choice([1, 1, 2, 3])
+    epochs = rng.choice([1, 2, 2, 3])
+    q = max(1, nb_target // epochs)
+    r = rng.choice([0, 1, B - 1, rng.randrange(B)])
+    return {"epochs": epochs, "dataset_len": (q * B + r) * world + rng.randrange(world), "world_size": world,
+            "drop_last": rng.random() < 0.6}
+
+
+INTER_LEVELS = [0.0, 1.0, 0.25, 0.5, 0.75]
+
+
+def _rand_schedule(rng, nb):
+    """schedules with stretches of EQUAL consecutive values (plateaus, constants) as often as changing ones"""
+    sk = rng.choice(["plateau", "plateau", "custom", "const", "default", "linear", "cosine", "linear_dec", "cosine_dec"])
+    if sk == "plateau":
+        vals, v = [], rng.choice(INTER_LEVELS)
+        while len(vals) < nb:
+            vals += [v] * rng.choice([1, 2, 2, 3])
+            v = rng.choice(INTER_LEVELS + [rng.random()])
+        return vals[:nb]
+    if sk == "custom":
+        return [rng.choice([0.0, 1.0, rng.random(), rng.random()]) for _ in range(nb)]
+    if sk == "const":
+        return rng.choice([0.0, 1.0, 0.5, _r(rng, 0, 1)])
+    if sk == "default":
+        return None
+    return {"kind": {"linear": "linear_increasing_schedule", "cosine": "cosine_increasing_schedule",
+                     "linear_dec": "linear_decreasing_schedule", "cosine_dec": "cosine_decreasing_schedule"}[sk]}
+
+
+def inter_case(rng, big=False):
+    """interleaved history on shared augmentation objects: 1-3 KDScheduledTransforms (own schedule / batch size /
+    announced length) over a heap of 1-2 augmentation objects (self.transform = one heap object or a private
+    KDComposeTransform over several), optionally all members of an outer KDComposeTransform together with some heap
+    objects; W deep copies of the whole pipeline (sharing preserved inside each copy, like DataLoader workers); steps:
+    scheduled k processes its next sample (dealt to the copies in full batches round-robin) / somebody calls
+    scale_strength(f) on heap object j of copy w / on copy w's outer composition"""
+    W = rng.choice([1, 1, 2, 2, 3])
+    J = rng.choice([1, 1, 2])
+    inners = [leaf_spec(rng, rng.choice(FLOAT_OK), "f") if rng.random() < 0.75 else tree_spec(rng, 2, "f")
+              for _ in range(J)]
+    K = rng.choice([1, 2, 2, 2, 3])
+    B0 = rng.choice([2, 2, 3, 4, 1])
+    scheds = []
+    for _ in range(K):
+        targets = [0] if J == 1 else rng.choice([[0], [0], [1], [0, 1], [1, 0]])
+        B = B0 if rng.random() < 0.8 else rng.choice([1, 2, 3, 5])
+        init = _rand_init(rng, B, rng.randint(2, 8 if not big else 16), big)
+        nb = expected_n_batches(init, B)
+        if nb < 2:
+            init, nb = {"updates": 3}, 3
+        scheds.append({"targets": targets, "compose": len(targets) > 1 or rng.random() < 0.25, "B": B, "init": init,
+                       "schedule": _rand_schedule(rng, nb), "wrap": rng.random() < 0.2})
+    outer = None
+    if rng.random() < 0.4:
+        outer = [["s", k] for k in range(K)] + [["i", j] for j in range(J) if rng.random() < 0.5]
+        rng.shuffle(outer)
+    caps = [expected_n_batches(sc["init"], sc["B"]) * sc["B"] for sc in scheds]
+    counts = [0] * K
+    steps = []
+    for _ in range(rng.randint(6, 24 if not big else 40)):
+        u = rng.random()
+        free = [k for k in range(K) if counts[k] < caps[k]]
+        if u < 0.72 and free:
+            k = rng.choice(free)
+            steps.append(["call", k])
+            counts[k] += 1
+            continue
+        # the copy that will handle some scheduled transform's next sample (where a foreign call matters), or any copy
+        k = rng.randrange(K)
+        w = (counts[k] // scheds[k]["B"]) % W if rng.random() < 0.7 else rng.randrange(W)
+        f = rng.choice(SPECIAL_F) if rng.random() < 0.6 else rng.random()
+        if outer is not None and u > 0.92:
+            steps.append(["outer", w, f])
+        else:
+            steps.append(["scale", w, rng.randrange(J), f])
+    if not any(st[0] == "call" for st in steps):
+        steps.append(["call", 0])
+    return {"kind": "inter", "W": W, "inners": inners, "scheds": scheds, "outer": outer, "steps": steps, "input": "f",
+            "xseed": rng.randrange(10 ** 6)}
+
+
 def gen_cases(rng, tier):
     S = schema()
     out = []
@@ -348,6 +471,8 @@ def gen_cases(rng, tier):
         out.append(scale_case(rng, tree_spec(rng, rng.choice([1, 2, 2, 3]), kind), kind, probe=False))
     for _ in range(120 if tier == "quick" else 700):
         out.append(sched_case(rng, big=(tier != "quick")))
+    for _ in range(90 if tier == "quick" else 600):
+        out.append(inter_case(rng, big=(tier != "quick")))
     # real DataLoader worker processes: one iterator over the whole announced length (every way of announcing it) ...
     modes = ["epochs", "updates", "samples", "epochs"]
     for k in range(2 if tier == "quick" else 16):
@@ -388,6 +513,7 @@ def search_cases(rng, tier):
         kind = rng.choice(["f", "pil"])
         yield scale_case(rng, tree_spec(rng, 2, kind), kind, probe=False)
         yield sched_case(rng, big=True)
+        yield inter_case(rng)
 
 
 def shrink(case):
@@ -413,6 +539,47 @@ def shrink(case):
         for s in _shrink_spec(case["inner"]):
             if s["c"] != "foreign":      # scheduling a plain callable is not a configuration the property speaks about
                 yield {**case, "inner": s}
+    elif case.get("kind") == "inter":
+        yield from _shrink_inter(case)
+
+
+def _shrink_inter(case):
+    steps = case["steps"]
+    K, J, W = len(case["scheds"]), len(case["inners"]), case["W"]
+    if len(steps) > 2:
+        yield {**case, "steps": steps[:len(steps) // 2]}
+    for i in range(len(steps) - 1, -1, -1):
+        if len(steps) > 1:
+            yield {**case, "steps": steps[:i] + steps[i + 1:]}
+    if W > 1:
+        yield {**case, "W": W - 1, "steps": [[st[0], min(st[1], W - 2)] + st[2:] if st[0] != "call" else st
+                                             for st in steps]}
+    if case["outer"] is not None and not any(st[0] == "outer" for st in steps):
+        yield {**case, "outer": None}
+    # drop a scheduled transform no step calls / a heap object nothing refers to (indices shift down)
+    for k in range(K):
+        if K > 1 and not any(st == ["call", k] for st in steps):
+            yield {**case, "scheds": case["scheds"][:k] + case["scheds"][k + 1:],
+                   "steps": [["call", st[1] - (st[1] > k)] if st[0] == "call" else st for st in steps],
+                   "outer": None if case["outer"] is None else
+                   [[m[0], m[1] - (m[0] == "s" and m[1] > k)] for m in case["outer"] if m != ["s", k]]}
+    for j in range(J):
+        used = (any(j in sc["targets"] for sc in case["scheds"]) or any(st[0] == "scale" and st[2] == j for st in steps))
+        if J > 1 and not used:
+            yield {**case, "inners": case["inners"][:j] + case["inners"][j + 1:],
+                   "scheds": [{**sc, "targets": [t - (t > j) for t in sc["targets"]]} for sc in case["scheds"]],
+                   "steps": [st[:2] + [st[2] - (st[2] > j)] + st[3:] if st[0] == "scale" else st for st in steps],
+                   "outer": None if case["outer"] is None else
+                   [[m[0], m[1] - (m[0] == "i" and m[1] > j)] for m in case["outer"] if m != ["i", j]]}
+    for k, sc in enumerate(case["scheds"]):
+        for simpler in ([{**sc, "wrap": False}] if sc["wrap"] else []) + \
+                       ([{**sc, "compose": False}] if sc["compose"] and len(sc["targets"]) == 1 else []) + \
+                       ([{**sc, "targets": sc["targets"][:1]}] if len(sc["targets"]) > 1 else []):
+            yield {**case, "scheds": case["scheds"][:k] + [simpler] + case["scheds"][k + 1:]}
+    for j, sp in enumerate(case["inners"]):
+        for s2 in _shrink_spec(sp):
+            if s2["c"] != "foreign":
+                yield {**case, "inners": case["inners"][:j] + [s2] + case["inners"][j + 1:]}
 
 
 def _shrink_spec(spec):
@@ -710,6 +877,8 @@ def run_impl(case):
             return run_scale(case)
         if kind == "multi_iter":
             return run_multi_iter(case)
+        if kind == "inter":
+            return run_inter(case)
         return run_sched(case)
     except Exception as e:  # noqa
         return {"harness_exception": f"{type(e).__name__}: {e}", "tb": traceback.format_exc()[-1200:]}
@@ -1145,6 +1314,256 @@ def run_sched(case):
     return obs
 
 
+def _fkey(j, f):
+    return "%d:%r" % (j, float(f))
+
+
+def run_inter(case):
+    """builds the pipeline (heap objects, scheduled transforms referring to them, optional outer composition), deep
+    copies it once per simulated worker (copy.deepcopy keeps the sharing inside a copy, as a forked / pickled DataLoader
+    worker does), initialises every scheduled transform through the public worker_init_fn, then plays the steps.  After
+    EVERY step the parameters of every heap object of the copy that was touched are read back from the real objects
+    (oracle registry and translator schema); for a call also ctx[strength], what the augmentation recorded in ctx and
+    returned, and the same for a reference built from the constructed objects scaled directly by the schedule's value
+    (asked from an independent copy of the schedule), same generator seed, same input"""
+    import json
+    import numpy as np
+    import torch
+    from unittest.mock import patch
+    from kappadata.transforms.base.kd_compose_transform import KDComposeTransform
+    from kappadata.transforms.base.kd_scheduled_transform import KDScheduledTransform
+    np.random.seed(case["xseed"] % (2 ** 31))
+    torch.manual_seed(case["xseed"])
+    W = case["W"]
+    cfgs = case["scheds"]
+    try:
+        objs = [build(sp) for sp in case["inners"]]
+        refs = [copy.deepcopy(o) for o in objs]
+        scheds, callers = [], []
+        for sc in cfgs:
+            tg = sc["targets"]
+            inner = objs[tg[0]] if len(tg) == 1 and not sc["compose"] else KDComposeTransform([objs[j] for j in tg])
+            s = KDScheduledTransform(inner, schedule=_schedule_obj(sc["schedule"]))
+            scheds.append(s)
+            callers.append(KDComposeTransform([s]) if sc["wrap"] else s)
+        outer = None
+        if case["outer"] is not None:
+            outer = KDComposeTransform([scheds[i] if tag == "s" else objs[i] for tag, i in case["outer"]])
+        pipeline = {"objs": objs, "scheds": scheds, "callers": callers, "outer": outer}
+    except Exception as e:  # noqa
+        return {"construct_error": f"{type(e).__name__}: {e}"}
+    obs = {"inners0": [try_live_tree(o) for o in objs], "init_heap": [observe(o) for o in objs], "steps": []}
+    workers = [copy.deepcopy(pipeline) for _ in range(W)]
+    try:
+        with patch("kappadata.transforms.base.kd_transform.get_worker_info", new=lambda: _WorkerInfo(W)):
+            for r, P in enumerate(workers):
+                for k, sc in enumerate(cfgs):
+                    P["callers"][k].worker_init_fn(r, batch_size=sc["B"], **sc["init"])
+    except Exception as e:  # noqa
+        return {**obs, "init_error": f"{type(e).__name__}: {e}"}
+    # the object graph is the modelled one: inside every copy self.transform of scheduled transform k IS heap object j
+    # (or a composition whose members ARE the heap objects), and no object is shared between copies
+    for r, P in enumerate(workers):
+        for k, sc in enumerate(cfgs):
+            t = P["scheds"][k].transform
+            got = [t] if len(sc["targets"]) == 1 and not sc["compose"] else list(getattr(t, "transforms", []))
+            if len(got) != len(sc["targets"]) or any(a is not P["objs"][j] for a, j in zip(got, sc["targets"])):
+                obs["alias_error"] = (f"copy {r}: scheduled transform {k} does not hold the heap objects {sc['targets']} "
+                                      "by reference")
+        if any(a is b for P2 in workers[:r] for a in P["objs"] for b in P2["objs"]):
+            obs["alias_error"] = f"copy {r} shares an augmentation object with another copy"
+    if "alias_error" in obs:
+        return obs
+    obs["n_batches"] = [workers[0]["scheds"][k].n_batches for k in range(len(cfgs))]
+    obs["nb_torch"] = [torch_n_batches(sc["init"], sc["B"]) for sc in cfgs]
+    obs["values"] = []
+    for k, sc in enumerate(cfgs):
+        try:
+            indep = _schedule_obj(sc["schedule"])
+            if indep is None:
+                from kappaschedules import LinearIncreasingSchedule
+                indep = LinearIncreasingSchedule()
+            obs["values"].append([float(indep.get_value(b, obs["n_batches"][k])) for b in range(obs["n_batches"][k])])
+        except Exception as e:  # noqa
+            obs["values_error"] = f"scheduled transform {k}: {type(e).__name__}: {e}"
+            obs["values"].append([])
+    # reference parameters: every constructed heap object scaled ONCE by every factor that can reach it
+    ref_bounds = {}
+
+    def ref_for(j, f):
+        key = _fkey(j, f)
+        if key not in ref_bounds:
+            c = copy.deepcopy(refs[j])
+            try:
+                c.scale_strength(f)
+                ref_bounds[key] = observe(c)["bounds"]
+            except Exception as e:  # noqa
+                ref_bounds[key] = f"{type(e).__name__}: {e}"
+
+    for k, sc in enumerate(cfgs):
+        for v in obs["values"][k]:
+            for j in sc["targets"]:
+                ref_for(j, v)
+    direct = [i for tag, i in (case["outer"] or []) if tag == "i"]
+    for st in case["steps"]:
+        if st[0] == "scale":
+            ref_for(st[2], st[3])
+        elif st[0] == "outer":
+            for j in direct:
+                ref_for(j, st[2])
+    counts = [0] * len(cfgs)
+    for idx, st in enumerate(case["steps"]):
+        row = {}
+        try:
+            if st[0] == "call":
+                k = st[1]
+                sc = cfgs[k]
+                n = counts[k]
+                counts[k] += 1
+                w = (n // sc["B"]) % W
+                P = workers[w]
+                seed = case["xseed"] + idx
+                x = make_input(case["input"], seed)
+                P["scheds"][k].set_rng(DrawSpy(seed))
+                ctx = {}
+                y = P["callers"][k](_fresh_input(x), ctx=ctx)
+                row.update({"w": w, "n": n, "strength": ctx.pop(P["scheds"][k].ctx_key, None),
+                            "beh": json.dumps([_canon(ctx), _digest(y)], sort_keys=True)})
+                b = n // sc["B"]
+                if b < len(obs["values"][k]):
+                    tg = sc["targets"]
+                    parts = [copy.deepcopy(refs[j]) for j in tg]
+                    rt = parts[0] if len(tg) == 1 and not sc["compose"] else KDComposeTransform(parts)
+                    rt.scale_strength(obs["values"][k][b])
+                    rt.set_rng(DrawSpy(seed))
+                    rctx = {}
+                    ry = rt(_fresh_input(x), ctx=rctx)
+                    row["beh_ref"] = json.dumps([_canon(rctx), _digest(ry)], sort_keys=True)
+            elif st[0] == "scale":
+                w = st[1]
+                workers[w]["objs"][st[2]].scale_strength(st[3])
+            else:
+                w = st[1]
+                workers[w]["outer"].scale_strength(st[2])
+        except Exception as e:  # noqa
+            row["error"] = f"{type(e).__name__}: {e}"
+            obs["steps"].append(row)
+            break
+        row["heap"] = [observe(o)["bounds"] for o in workers[w]["objs"]]
+        row["trees"] = [try_live_tree(o) for o in workers[w]["objs"]]
+        obs["steps"].append(row)
+    obs["refs"] = ref_bounds
+    return obs
+
+
+def oracle_inter(case, obs):
+    """every call of scheduled transform k on its n-th sample reports schedule_k(n // B_k) and is APPLIED with every
+    augmentation object it reaches at `constructed, scaled by that value` - whatever other scheduled transforms sharing
+    the object or direct scale_strength calls did in between; every object always is `constructed, scaled by the last
+    factor anybody gave it`"""
+    W, cfgs = case["W"], case["scheds"]
+    K, J = len(cfgs), len(case["inners"])
+    sig = ("pipeline of %d KDScheduledTransform(s) %s over augmentation object(s) %s%s, %d worker cop%s" % (
+        K, [("obj%s" % sc["targets"]) + " B=%d %s schedule=%s" % (sc["B"], sc["init"], _sched_sig(sc["schedule"]))
+            for sc in cfgs],
+        ["obj%d=%s" % (j, spec_sig(sp)) for j, sp in enumerate(case["inners"])],
+        "" if case["outer"] is None else ", outer compose of %s" % case["outer"], W, "y" if W == 1 else "ies"))
+    for k in ("init_error", "values_error"):
+        if k in obs:
+            return f"{sig}: {k}: {obs[k]}"
+    if "alias_error" in obs:
+        return (f"{sig}: the object graph is not the modelled one (KDScheduledTransform keeps a reference to the "
+                f"transform it is given; deepcopy keeps the sharing inside a copy): {obs['alias_error']}")
+    for k, sc in enumerate(cfgs):
+        exp_nb = expected_n_batches(sc["init"], sc["B"])
+        if obs["n_batches"][k] != exp_nb or obs["nb_torch"][k] != exp_nb:
+            return (f"{sig}: scheduled transform {k}: n_batches = {obs['n_batches'][k]}, the announced training length "
+                    f"means {exp_nb} batches (torch's samplers: {obs['nb_torch'][k]})")
+    init = [h["bounds"] for h in obs["init_heap"]]
+    direct = [i for tag, i in (case["outer"] or []) if tag == "i"]
+    via_sched = sorted({j for tag, i in (case["outer"] or []) if tag == "s" for j in cfgs[i]["targets"]} - set(direct))
+    counts = [0] * K
+    # last[w][j]: None = as constructed, float = last factor given, "?" = an outer composition holding a scheduled
+    # transform over j was scaled (KDScheduledTransform does not forward an outer factor today; not part of the claim)
+    last = [[None] * J for _ in range(W)]
+    hist = []
+    for idx, st in enumerate(case["steps"]):
+        if idx >= len(obs["steps"]):
+            return f"{sig}: step {idx} {st} was not executed"
+        ob = obs["steps"][idx]
+        if st[0] == "call":
+            k = st[1]
+            sc = cfgs[k]
+            n = counts[k]
+            counts[k] += 1
+            b = n // sc["B"]
+            w = b % W
+            what = (f"step {idx}: scheduled transform {k} processes its sample {n} (its global batch {b}, worker copy {w})"
+                    f" after {hist}")
+            if "error" in ob:
+                return f"{sig}: {what}: raised {ob['error']}"
+            if ob["w"] != w or ob["n"] != n:
+                return f"{sig}: harness routed {what} to copy {ob['w']} as sample {ob['n']}"
+            want = obs["values"][k][b]
+            if ob["strength"] is None:
+                return f"{sig}: {what}: no strength reported in ctx"
+            if ob["strength"] != want:
+                return (f"{sig}: {what}: reports strength {ob['strength']!r}, its schedule's value at batch {b} of "
+                        f"{obs['n_batches'][k]} is {want!r}")
+            for j in sc["targets"]:
+                last[w][j] = want
+            hist.append(f"call{k}")
+        else:
+            w = st[1]
+            if "error" in ob:
+                return f"{sig}: step {idx} {st} after {hist}: raised {ob['error']}"
+            if st[0] == "scale":
+                last[w][st[2]] = st[3]
+                hist.append(f"obj{st[2]}.scale({st[3]!r})@{w}")
+            else:
+                for j in direct:
+                    last[w][j] = st[2]
+                for j in via_sched:
+                    last[w][j] = "?"
+                hist.append(f"outer.scale({st[2]!r})@{w}")
+            what = f"step {idx} {st} after {hist[:-1]}"
+        for j in range(J):
+            f = last[w][j]
+            if f == "?":
+                continue
+            ref = init[j] if f is None else obs["refs"].get(_fkey(j, f))
+            if isinstance(ref, str):
+                return f"{sig}: scaling a copy of the constructed object {j} by {f!r} raised {ref}"
+            mine = st[0] == "call" and j in cfgs[st[1]]["targets"]
+            for (name, v, ident), (_, vr, _), (_, v0, _) in zip(ob["heap"][j], ref, init[j]):
+                bad = None
+                if not _close(v, vr):
+                    bad = f"the constructed object scaled by {f!r} has {vr!r}"
+                elif f == 0.0 and not _close(v, ident):
+                    bad = f"the weakest setting is {ident!r}"
+                elif f == 1.0 and not _close(v, v0):
+                    bad = f"constructed with {v0!r}"
+                if bad:
+                    if mine:
+                        return (f"{sig}: {what}: reports strength {ob['strength']!r} but the sample is transformed with "
+                                f"object {j} at {name} = {v!r}; {bad}: the applied strength is not the reported one")
+                    return (f"{sig}: {what}: afterwards object {j} of copy {w} has {name} = {v!r}, the last factor it "
+                            f"was given is {f!r}; {bad}")
+        if st[0] == "call" and "beh_ref" in ob and ob["beh"] != ob["beh_ref"]:
+            return (f"{sig}: {what}: reports strength {ob['strength']!r} but the augmentation recorded / returned "
+                    f"{ob['beh'][:300]}; the constructed augmentation scaled by that value (same generator seed, same "
+                    f"input) records / returns {ob['beh_ref'][:300]}")
+    return None
+
+
+def _sched_sig(s):
+    if isinstance(s, dict):
+        return s["kind"]
+    if isinstance(s, list):
+        return "[" + ",".join("%.3g" % v for v in s) + "]"
+    return repr(s)
+
+
 # ---------------------------------------------------------------------------
 # independent Python statement of the property
 # ---------------------------------------------------------------------------
@@ -1186,6 +1605,8 @@ def oracle(case, obs):
         return oracle_scale(case, obs)
     if kind == "multi_iter":
         return oracle_multi_iter(case, obs)
+    if kind == "inter":
+        return oracle_inter(case, obs)
     return oracle_sched(case, obs)
 
 
@@ -1439,6 +1860,18 @@ def coq_applicable(case, obs):
         if any("tree" not in st or not _tree_ok(st["tree"]) for st in obs["steps"]):
             return False
         return _trunc_safe(obs["tree0"], case["factors"])
+    if case.get("kind") == "inter":
+        if any(k in obs for k in ("construct_error", "init_error", "values_error", "alias_error")) or not obs.get("steps"):
+            return False
+        if len(obs["steps"]) != len(case["steps"]) or not all(_tree_ok(t) for t in obs.get("inners0", [None])):
+            return False
+        for st, ob in zip(case["steps"], obs["steps"]):
+            if "error" in ob or not all(_tree_ok(t) for t in ob["trees"]):
+                return False
+            if st[0] == "call" and ob["strength"] is None:
+                return False
+        factors = [v for vs in obs["values"] for v in vs] + [st[-1] for st in case["steps"] if st[0] != "call"]
+        return all(_trunc_safe(t, factors) for t in obs["inners0"])
     if case.get("kind") == "sched":
         if not _tree_ok(obs.get("inner0")) or not obs.get("samples") or "values" not in obs:
             return False
@@ -1450,19 +1883,47 @@ def coq_applicable(case, obs):
     return False
 
 
+def _coq_init(init):
+    if "updates" in init:
+        return f"(IUpdates {init['updates']}%Z)"
+    if "samples" in init:
+        return f"(ISamples {init['samples']}%Z)"
+    return (f"(IEpochs {init['epochs']}%Z {init['dataset_len']}%Z {init['world_size']}%Z "
+            f"{'true' if init['drop_last'] else 'false'})")
+
+
+def _coq_list(items):
+    return "[" + "; ".join(items) + "]"
+
+
+def coq_inter(case, obs, S):
+    cfgs = _coq_list("(%d%%Z, %s, %s)" % (sc["B"], _coq_init(sc["init"]), _coq_list("%d%%nat" % j for j in sc["targets"]))
+                     for sc in case["scheds"])
+    nbs = _coq_list("%d%%Z" % nb for nb in obs["n_batches"])
+    outer = _coq_list(("(MSched %d%%nat)" if tag == "s" else "(MInner %d%%nat)") % i for tag, i in (case["outer"] or []))
+    inners0 = _coq_list(coq_tree(t, S) for t in obs["inners0"])
+    values = _coq_list(_coq_list(_qf(v) for v in vs) for vs in obs["values"])
+    rows = []
+    for st, ob in zip(case["steps"], obs["steps"]):
+        heap = _coq_list(coq_tree(t, S) for t in ob["trees"])
+        if st[0] == "call":
+            rows.append(f"(PCall {ob['w']}%nat {st[1]}%nat, {_qf(ob['strength'])}, {heap})")
+        elif st[0] == "scale":
+            rows.append(f"(PScale {st[1]}%nat {st[2]}%nat {_qf(st[3])}, {_qf(st[3])}, {heap})")
+        else:
+            rows.append(f"(PScaleOuter {st[1]}%nat {_qf(st[2])}, {_qf(st[2])}, {heap})")
+    return f"(CInter {case['W']}%nat {cfgs} {nbs} {outer} {inners0} {values} {_coq_list(rows)})"
+
+
 def coq_case(case, obs):
     S = schema()
     if case["kind"] == "scale":
         steps = "[" + "; ".join(f"({_qf(st['f'])}, {coq_tree(st['tree'], S)})" for st in obs["steps"]) + "]"
         return f"(CScale {coq_tree(obs['tree0'], S)} {steps})"
+    if case["kind"] == "inter":
+        return coq_inter(case, obs, S)
     init = case["init"]
-    if "updates" in init:
-        i = f"(IUpdates {init['updates']}%Z)"
-    elif "samples" in init:
-        i = f"(ISamples {init['samples']}%Z)"
-    else:
-        i = (f"(IEpochs {init['epochs']}%Z {init['dataset_len']}%Z {init['world_size']}%Z "
-             f"{'true' if init['drop_last'] else 'false'})")
+    i = _coq_init(init)
     vals = "[" + "; ".join(_qf(v) for v in obs["values"]) + "]"
     # long runs: Coq replays the first COQ_SAMPLES global samples (the Python oracle checks all of them)
     ob = "[" + "; ".join(f"({s['rank']}%nat, {_qf(s['strength'])}, {coq_tree(s['tree'], S)})"
@@ -1520,6 +1981,19 @@ def features(case, obs):
     elif kind == "multi_iter":
         yield "multi_iter:" + case["regime"]
         yield "W=%d" % case["W"]
+    elif kind == "inter":
+        yield "inter:W=%d" % case["W"]
+        yield "inter:scheds=%d" % len(case["scheds"])
+        yield "inter:objects=%d" % len(case["inners"])
+        shared = any(set(a["targets"]) & set(b["targets"]) for i, a in enumerate(case["scheds"])
+                     for b in case["scheds"][i + 1:])
+        yield "inter:shared_object=%s" % shared
+        yield "inter:outer=%s" % (case["outer"] is not None)
+        yield "inter:foreign_scale=%s" % any(st[0] == "scale" for st in case["steps"])
+        yield "inter:outer_scale=%s" % any(st[0] == "outer" for st in case["steps"])
+        yield "inter:Bmax=%d" % max(sc["B"] for sc in case["scheds"])
+        if _inter_stale_opportunity(case, obs):
+            yield "inter:same_value_after_foreign_write"
     elif kind == "sched":
         yield "W=%d" % case["W"]
         yield "B=%d" % case["B"]
@@ -1542,6 +2016,41 @@ def features(case, obs):
         yield "partial_run=%s" % (case["n"] < obs.get("n_batches", 0) * case["B"])
 
 
+def _inter_stale_opportunity(case, obs):
+    """does the history contain the situation the interleaving is about: a scheduled transform is called with the SAME
+    schedule value as at its previous call on that copy, while somebody else gave one of its objects a DIFFERENT factor
+    in between"""
+    vals = obs.get("values")
+    if not vals or "values_error" in obs:
+        return False
+    W, cfgs = case["W"], case["scheds"]
+    counts = [0] * len(cfgs)
+    prev = {}                      # (w, k) -> value of k's previous call on copy w
+    last = {}                      # (w, j) -> (last factor, who)
+    for st in case["steps"]:
+        if st[0] == "call":
+            k = st[1]
+            b = counts[k] // cfgs[k]["B"]
+            counts[k] += 1
+            w = b % W
+            if b >= len(vals[k]):
+                return False
+            v = vals[k][b]
+            if prev.get((w, k)) == v and any(last.get((w, j), (v, k)) != (v, k) and last[(w, j)][0] != v
+                                             for j in cfgs[k]["targets"]):
+                return True
+            prev[(w, k)] = v
+            for j in cfgs[k]["targets"]:
+                last[(w, j)] = (v, k)
+        elif st[0] == "scale":
+            last[(st[1], st[2])] = (st[3], "foreign")
+        else:
+            for tag, i in case["outer"] or []:
+                if tag == "i":
+                    last[(st[1], i)] = (st[2], "outer")
+    return False
+
+
 def json_key(d):
     return tuple(sorted((k, v) for k, v in d.items()))
 
@@ -1558,6 +2067,12 @@ def nontrivial_key(case, obs):
         return ("scale", spec_sig(case["spec"]), pat, tuple(round(f, 6) for f in case["factors"]))
     if kind == "multi_iter":
         return ("multi_iter", case["regime"], case["W"], case["B"], case["bpe"], case["epochs"])
+    if kind == "inter":
+        if not obs.get("steps") or not _inter_stale_opportunity(case, obs):
+            return None
+        return ("inter", case["W"], tuple(spec_sig(sp) for sp in case["inners"]),
+                tuple((tuple(sc["targets"]), sc["B"], json_key(sc["init"])) for sc in case["scheds"]),
+                tuple(tuple(st[:3]) for st in case["steps"]))
     if kind == "sched":
         if not obs.get("samples") or (case["W"] < 2 and len(obs["samples"]) <= case["B"]):
             return None
